@@ -2,8 +2,9 @@
 """harmlesscheck.py : re-run the owning checks on every stored behaviour-preserving refactoring (seeded_harmless/*.diff).
 Expected: no VIOLATION (exit 0, or 2 = undecided). Prints one line per patch."""
 import os, sys, re, subprocess, shutil, tempfile, glob
+_VERIF = os.path.dirname(os.path.dirname(os.path.abspath(__file__)))   # the tree this script belongs to (a vp-run snapshot runs ITS OWN checks)
 from concurrent.futures import ThreadPoolExecutor
-D = "/verif/seeded_harmless"
+D = os.path.join(_VERIF, "seeded_harmless")
 MAP = [("common/parse.rs", ["C02", "C03"]), ("common/reference.rs", ["C05", "C06"]), ("common/path.rs", ["C12", "C09", "C16"]),
        ("common/path_mut.rs", ["C10", "C09"]), ("common/authority_mut.rs", ["C11"]), ("utils.rs", ["C05"]), ("common/authority.rs", ["C03"]),
        ("src/uri/", ["C13", "C07", "C08"]), ("src/iri/", ["C13", "C07", "C08"])]
@@ -22,7 +23,7 @@ def one(pf):
             return os.path.basename(pf), {"patch": "does not apply"}
         res = {}
         for p in props:
-            r = subprocess.run(["./check.py", p], cwd="/verif", env=dict(os.environ, VERIF_REPO=mut), stdout=subprocess.PIPE, stderr=subprocess.STDOUT, text=True)
+            r = subprocess.run(["./check.py", p], cwd=_VERIF, env=dict(os.environ, VERIF_REPO=mut), stdout=subprocess.PIPE, stderr=subprocess.STDOUT, text=True)
             res[p] = r.returncode
         return os.path.basename(pf), res
     finally:
